@@ -19,7 +19,7 @@ MOUNTS = {
     "instance": ("statime/src/ptp_instance.rs",                   "ptp_instance::verif_instance"),
 }
 
-VARIANTS = ("base", "dl128", "lists2", "dl128_lists2", "dl64_lists1")
+VARIANTS = ("base", "dl128", "lists2", "dl128_lists2", "dl64_lists1", "lists2_rv")
 
 
 class Harness:
